@@ -255,4 +255,9 @@ def run(ck, tier):
                                         'WriteMultipleRegistersResponse', 'MaskWriteRegisterResponse'))
     ck.assume('histories are not decided: that a read returns the latest write follows from R2 + C18 shapes, it is not itself checked')
     ck.assume('only the in-memory ModbusSlaveContext is analysed, not arbitrary datastore implementations')
+    from .. import ownership as _own
+    ck.guard(_own.rule_instance_owned, ck, cx, 'R8', _own.STORES, 'a write to one context / block changes cells of another', 4)
+    from ..share import import_findings as _imp
+    ck.rule('R9', 'the echo fields of a write response carry the request values, 0 included: a response constructor does not replace a 0 argument by a default (shared with C01 R6)')
+    _imp(ck, 'C01', 'R9', ('R6',), 'the normal response does not echo what the request carried', construct_contains=('Response',))
     return cx.idx
